@@ -1,13 +1,13 @@
-\* generated by tools/gen_cfgs.py; root module: MCSessionLim
+\* generated by tools/gen_cfgs.py; root module: MCSessionHist
 SPECIFICATION Spec
 CONSTANTS
-  MaxRows = 2
+  MaxRows = 0
   NFields = 2
-  Checks <- U1
+  Checks <- HChecks
   Header = 0
   Tables <- TheTables
-  Modes <- TwoModes
-  Limits <- HLimits
+  Modes <- AllModes
+  Limits <- NoLimit
   Apis = {"reader"}
   Ends = {"close", "forget", "abandon"}
   Writers = FALSE
@@ -22,18 +22,6 @@ CONSTANTS
   LogCalls = FALSE
 INVARIANT TypeOK
 INVARIANT HistoryIndependence
-INVARIANT RowAcceptedIff
-INVARIANT ErrorLocation
-INVARIANT UniqueIffEarlierAccepted
-INVARIANT DistinctAtEnd
-INVARIANT ModesAgree
-INVARIANT CountersAddUp
-INVARIANT FaultStopsEveryMode
-INVARIANT HeaderNeverValidated
-INVARIANT LimitBoundary
-INVARIANT ValidateStopsAfterN
-INVARIANT WriterEmitsAccepted
-INVARIANT OutputRevalidates
 INVARIANT Emit
 PROPERTY ChecksOnlyChangeInsideASession
 CHECK_DEADLOCK FALSE
